@@ -7,8 +7,10 @@ SPEC = dict(
                'z = y - NH3; immonium = residue - CO + proton; each of the 9 internal series = span + proton + the pair of terminal '
                'offsets) is one obligation on the real MONOISOTOPIC/AVERAGE_FRAGMENT(_ION)_ADJUSTMENTS values, read exactly and compared in '
                'exact rational arithmetic with CO / NH3 / H2 / H2O / proton computed from the independent NIST table (1e-5 Da), both modes; '
-               'together with adjust_mass#ensures (C02, proved: the offsets enter every ion mass additively and each extra charge adds one '
-               'proton) this decides the series relations for every peptide. The real fragment() is additionally run on described peptides '
+               'together with four lemmas proved over the adjust_mass contract (C02) -- a singly charged ion is its base mass plus the table '
+               'offsets of its type; each further charge adds one proton; complementary b and y ions sum to the two spans plus both offsets; a '
+               'mass added to the base mass shifts exactly the ions built on it, by exactly that mass -- this decides the series relations for '
+               'every peptide. The real fragment() is additionally run on described peptides '
                '(bounded) for the clause "modifications shift exactly the ions that contain the modified residue or terminus".',
     level_note='Oracle constants typed in (specs/nist.py). A-REAL. The link from the tables to fragment() output is adjust_mass#ensures (proved '
                'under C02) plus the bounded run; _build_fragments itself is under contract in C04 only as far as built there.',
@@ -16,12 +18,12 @@ SPEC = dict(
     technique='ground obligations over the real constant tables (exact rational arithmetic against an independent atomic-mass table) as lemmas '
               'over the proved adjust_mass contract; bounded run of the real fragmenter as labelled stand-in',
     contracts=['masscalc'],
-    targets={'masscalc': ['peptacular.mass_calc:adjust_mass']},
+    targets={'masscalc': ['peptacular.mass_calc:adjust_mass', 'LEMMAS']},
     ground=[dict(module='ground.c05_tables')],
     bounded=[dict(name='C05-bounded', script='bounded/C05.py')],
     replay_finder='bounded/C05.py',
     proved_clauses=['table identities for all 6 terminal series, immonium and 9 internal series, both modes (ground, exact)',
-                    'higher charge adds one proton each; offsets additive (adjust_mass#ensures)'],
+                    'higher charge adds one proton each; offsets additive; a modification shifts exactly the ions whose span contains it (lemmas over adjust_mass#ensures)'],
     bounded_clauses=['absolute b/y/a/c/x/z/immonium/internal values of the real fragment() incl. modified residues and termini, charge 1..4'],
     uncovered_clauses=['immonium ions of a residue at a MODIFIED terminus (whether the ion contains the terminus is not fixed by the statement)'],
     assumptions=['A-REAL', 'oracle constants typed in from NIST/CODATA'],
